@@ -160,6 +160,20 @@ func CheckC10(h *History, blk *BlockRecord) []Violation {
 		out = append(out, Violation{Sig: "C10/leveragelp-altered-while-not-eligible", Detail: fmt.Sprintf("leveragelp position %d of %s was altered/closed by someone else (shares %s -> %v, still=%v) although on the previous state at this block's time its health was %s (SF %s) and its stop-loss %s was not reached (height %d; %s)", p.Id, h.W.nameOf(p.Address), p.LeveragedLpAmount, c.LeveragedLpAmount, still, health, sf, p.StopLossPrice, cur.Height, blockSummary(blk))})
 	}
 	// ---- perpetual
+	othersInBlock := 0
+	for _, tx := range blk.Txs {
+		if tx.Code == 0 && (strings.Contains(tx.MsgType, ".amm.") || strings.Contains(tx.MsgType, ".perpetual.") || strings.Contains(tx.MsgType, ".leveragelp.")) {
+			othersInBlock++
+		}
+	}
+	for _, m := range prev.MTPs {
+		if _, still := curMTP[m.Id]; !still && !ownerTouchedMTP[m.Id] {
+			othersInBlock++
+		}
+	}
+	if othersInBlock > 0 {
+		othersInBlock-- // the close request itself
+	}
 	for _, m := range prev.MTPs {
 		if ownerTouchedMTP[m.Id] {
 			continue
@@ -171,6 +185,12 @@ func CheckC10(h *History, blk *BlockRecord) []Violation {
 			continue
 		}
 		h.Labels["c10-mtp-altered-by-third-party"]++
+		// dust positions (< 1e6 base units of liabilities or custody): the swap estimation's unit rounding
+		// moves their health by several per cent; their decision exactness is covered by the boundary part
+		if m.Liabilities.LT(sdkmath.NewInt(1_000_000)) || m.Custody.LT(sdkmath.NewInt(1_000_000)) {
+			h.Labels["c10-skipped-dust-position"]++
+			continue
+		}
 		if feedInBlock {
 			h.Labels["c10-skipped-feed-in-block"]++
 			continue
@@ -200,7 +220,10 @@ func CheckC10(h *History, blk *BlockRecord) []Violation {
 			h.Labels["c10-health-unavailable"]++
 			continue
 		}
-		eligible := health.LTE(sf.Mul(c10Delta))
+		// every other forced close / pool-touching tx of the same block moves the pool the health is
+		// estimated against: the band grows by 2% for each of them
+		band := c10Delta.Add(sdkmath.LegacyNewDecWithPrec(2, 2).MulInt64(int64(othersInBlock)))
+		eligible := health.LTE(sf.Mul(band))
 		long := m.Position == perptypes.Position_LONG
 		if !eligible && !m.StopLossPrice.IsNil() && m.StopLossPrice.IsPositive() {
 			if (long && price.LTE(m.StopLossPrice)) || (!long && price.GTE(m.StopLossPrice)) {
